@@ -102,9 +102,10 @@ def make_torch_lm(seed, chars, hidden=6, layers=1, emb=4):
         def __init__(self):
             super().__init__()
             self.lin = torch.nn.Linear(hidden, len(chars) + 2)
+            self.drop = torch.nn.Dropout(0.3)       # LMs are trained with dropout; scoring must run in eval mode
 
         def forward(self, hs):
-            return torch.log_softmax(self.lin(hs), dim=-1)
+            return torch.log_softmax(self.lin(self.drop(hs)), dim=-1)
 
     class LM(torch.nn.Module):
         def __init__(self):
@@ -120,5 +121,5 @@ def make_torch_lm(seed, chars, hidden=6, layers=1, emb=4):
     with torch.no_grad():
         for p in lm.parameters():
             p.copy_((torch.rand(p.shape, generator=g, dtype=torch.float64) - 0.5) * 3.0)
-    lm.eval()
+    lm.train()      # as loaded for fine-tuning: putting the model into eval mode is LMWrapper's job
     return lm
